@@ -95,7 +95,7 @@ func ruleWithStack(c *Ctx, r *R) {
 		if !ok {
 			return
 		}
-		res := ret.Results[0]
+		res := returnedValue(ret, 0)
 		switch {
 		case isNilConst(res):
 			for _, g := range guardsOf(b) {
@@ -157,7 +157,7 @@ func ruleWithStack(c *Ctx, r *R) {
 	okU := false
 	if uw != nil {
 		instrs(uw, func(b *ssa.BasicBlock, i int, in ssa.Instruction) {
-			if ret, ok := in.(*ssa.Return); ok && strings.HasSuffix(path(ret.Results[0]), ".inner") {
+			if ret, ok := in.(*ssa.Return); ok && strings.HasSuffix(path(returnedValue(ret, 0)), ".inner") {
 				okU = true
 			}
 		})
@@ -174,7 +174,7 @@ func ruleAbsClampAdapters(c *Ctx, r *R) {
 			if !ok {
 				return
 			}
-			if neg, ok := ret.Results[0].(*ssa.UnOp); ok && neg.Op == token.SUB && neg.X == ssa.Value(x) {
+			if neg, ok := returnedValue(ret, 0).(*ssa.UnOp); ok && neg.Op == token.SUB && neg.X == ssa.Value(x) {
 				lt0, noOverflow := false, false
 				for _, g := range guardsOf(b) {
 					if cf, ok := g.asCmp(); ok {
@@ -196,7 +196,7 @@ func ruleAbsClampAdapters(c *Ctx, r *R) {
 		// non-negative path returns x
 		pos := false
 		instrs(fn, func(b *ssa.BasicBlock, i int, in ssa.Instruction) {
-			if ret, ok := in.(*ssa.Return); ok && ret.Results[0] == ssa.Value(x) {
+			if ret, ok := in.(*ssa.Return); ok && returnedValue(ret, 0) == ssa.Value(x) {
 				for _, g := range guardsOf(b) {
 					if cf, ok := g.asCmp(); ok && cf.x == ssa.Value(x) && cf.op == token.GEQ && isConstInt(cf.y, 0) {
 						pos = true
@@ -230,7 +230,7 @@ func ruleAbsClampAdapters(c *Ctx, r *R) {
 				}
 				return false
 			}
-			switch ret.Results[0] {
+			switch returnedValue(ret, 0) {
 			case ssa.Value(lo):
 				okLo = has(x, token.LSS, lo)
 			case ssa.Value(hi):
@@ -271,7 +271,7 @@ func ruleAbsClampAdapters(c *Ctx, r *R) {
 			if !ok {
 				return
 			}
-			v := ret.Results[0]
+			v := returnedValue(ret, 0)
 			neg := false
 			if u, ok := v.(*ssa.UnOp); ok && u.Op == token.NOT {
 				neg = true
@@ -298,7 +298,7 @@ func ruleAbsClampAdapters(c *Ctx, r *R) {
 			if !ok {
 				return
 			}
-			k, ok := ret.Results[0].(*ssa.Const)
+			k, ok := returnedValue(ret, 0).(*ssa.Const)
 			if !ok {
 				return
 			}
